@@ -28,18 +28,19 @@ TEXT = {'design_ref': 'DESIGN.md section 4, C16',
               'oracle',
  'text': 'Proved in Lean for every ring state satisfying the representation invariant — which for owning item types includes "every slot outside the window '
          'and the idle inline buffer hold the default item" — hence for every history on any number of fresh Queues, for every inline capacity and item type: '
-         'the index kernels stay in range and equal (head+i) mod size; 53 of the 66 op kinds of the engine (27 single-Queue kinds: add/remove at head and tail, '
-         'get/replace at index, Clear, EnsureSize/ShrinkToFit on all paths, RemoveHeadMulti/RemoveTailMulti, AddTailMulti/AddHeadMulti/InsertItemsAt from an '
-         'array, another Queue, the Queue itself and a pointer into its own array, operator=, CopyFrom, Swap, RemoveItemAt, InsertItemAt, Sort as a stable '
-         'sort, Normalize in all branches, ==/StartsWith/EndsWith; 6 multi-Queue kinds: another register as the argument, SwapContents incl. SwapContentsAux, '
-         'move assignment, move and copy construction) keep the invariant, commute with the abstraction to the ideal List operation and return the same '
-         'result; failure is reported exactly when the ideal operation is undefined and then nothing changes; the visible result depends only on what was '
-         'visible before; set-size pads with default items only; Normalize is the identity on the content; SwapContents/Plunder exchange/transfer exactly '
-         'the items and leave no stale item in the vacated inline slots; the no-argument AddTailAndGet hands out the default item for owning types.  The 13 '
-         'op kinds that search or reorder by item value (IndexOf, LastIndexOf, ReverseItemOrdering, InsertItemAtSortedPosition, RemoveAll/First/'
-         'LastInstanceOf, RemoveSortedDuplicateItems, RemoveDuplicateItems) are modelled and covered by the correspondence run and the std::deque oracle only '
-         '(that is the exact gap of the theorems still named _partial).',
- 'note': 'Sort and the rotation inside Normalize are abstracted to their functional result (stable sort / rotation).  Findings C16-D1/D2 (EnsureSize with '
+         'the index kernels stay in range and equal (head+i) mod size; ALL 66 op kinds of the engine (40 single-Queue kinds incl. add/remove at both ends, '
+         'get/replace at index, Clear, EnsureSize/ShrinkToFit on all paths, multi-item add/insert/remove from an array, another Queue, the Queue itself and '
+         'a pointer into its own array, operator=, CopyFrom, Swap, RemoveItemAt, InsertItemAt, Sort as a stable sort, Normalize in all branches, '
+         '==/</StartsWith/EndsWith, IndexOf/LastIndexOf, RemoveFirst/Last/AllInstancesOf, InsertItemAtSortedPosition, RemoveSortedDuplicateItems, '
+         'RemoveDuplicateItems, ReverseItemOrdering; 6 multi-Queue kinds: another register as the argument, SwapContents incl. SwapContentsAux, move '
+         'assignment, move and copy construction) keep the invariant, commute with the abstraction to the ideal List operation (first/last matching index, '
+         'erase at the first/last occurrence, filter, insertion behind the last item that is not greater, collapse of equal adjacent items, reversal of '
+         'the clipped sub-range, ...) and return the same result; failure is reported exactly when the ideal operation is undefined and then nothing '
+         'changes; the visible result depends only on what was visible before; no stale item survives any operation for owning item types.  One '
+         'deliberate exclusion, explicit as the hypothesis Op.specified: the no-argument AddTailAndGet()/AddHeadAndGet() without a following write on a '
+         'TRIVIAL item type, whose new item the API documents as uninitialised (theorem raw_add_exposed states what is known); for owning types it is '
+         'covered (a default item).',
+ 'note': 'Sort and the rotation inside Normalize are abstracted to their functional result (stable sort / rotation); Swap with a bad index (an assertion failure in C++) is a refused call in the model.  Findings C16-D1/D2 (EnsureSize with '
          'allowShrink below the item count) are fixed in /repo (97f299d): their trigger class is back in the random stream and the corpus files are regression '
          'cases.  C16-D3..D6 (stale inline items after SwapContentsAux, self-prepend, InsertItemsAt with a pointer into the own array, self-move) are fixed '
          'in /repo as well (c480d7f, d938114, 9a92768, c9f3294): the model mirrors the repaired code, the trigger classes are in the random stream and '
